@@ -6,7 +6,8 @@
 //! input line:  <eof|pending|err> <chunk hex>... / <eof|pending|err> <chunk hex>... / ...
 //! output line: the request's result per connection, joined by " / ":
 //!   Ok(<value>) | Exception(<code>) | BadFrame | BadResponse | Io | Timeout | <Debug of anything else>
-//! optional argument: --decode min|max
+//! optional arguments: --decode min|max; --rtu = the RTU client (FrameWriter::rtu + response parser; replies are
+//!   matched by order, there is no transaction id) instead of the TCP client
 use crate::util::unhex;
 use crate::wire::Wire;
 use rodbus::client::RequestParam;
@@ -27,8 +28,9 @@ fn show(res: Result<Vec<rodbus::Indexed<u16>>, RequestError>) -> String {
     }
 }
 
-async fn run_case(line: String, decode: DecodeLevel) -> String {
-    let (channel, mut session) = ClientSession::new(Framing::Tcp, 16, decode, None);
+async fn run_case(line: String, decode: DecodeLevel, rtu: bool) -> String {
+    let framing = if rtu { Framing::RtuResponse } else { Framing::Tcp };
+    let (channel, mut session) = ClientSession::new(framing, 16, decode, None);
     channel.enable().await.unwrap();
     let mut out = Vec::new();
     for conn in line.split('/') {
@@ -80,6 +82,7 @@ async fn run_case(line: String, decode: DecodeLevel) -> String {
 pub fn main(args: &[String]) -> i32 {
     crate::util::quiet_panics();
     let decode = crate::util::decode_arg(args);
+    let rtu = args.iter().any(|a| a == "--rtu");
     for line in crate::util::stdin_lines() {
         let res = std::panic::catch_unwind(move || {
             let rt = tokio::runtime::Builder::new_current_thread()
@@ -87,7 +90,7 @@ pub fn main(args: &[String]) -> i32 {
                 .start_paused(true)
                 .build()
                 .unwrap();
-            rt.block_on(run_case(line, decode))
+            rt.block_on(run_case(line, decode, rtu))
         });
         match res {
             Ok(s) => println!("{s}"),
